@@ -371,7 +371,7 @@ theorem colIntOk_sound (c : ICert) (mask : List (List Bool)) (k : Nat) (hs : c.s
 
 /-- `b₀²` lies in the fixed interval around `1/(4π)` -/
 theorem b0sqOk_sound (c : ICert) (h : c.b0sqOk = true) :
-    (87496354673 : ℚ) / 2 ^ 40 ≤ c.b0q ^ 2 ∧ c.b0q ^ 2 ≤ (87496355774 : ℚ) / 2 ^ 40 := by
+    (96203260011544519986650 : ℚ) / 2 ^ 80 ≤ c.b0q ^ 2 ∧ c.b0q ^ 2 ≤ (96203260011544712392863 : ℚ) / 2 ^ 80 := by
   simp only [b0sqOk, Bool.and_eq_true, decide_eq_true_eq] at h
   have hnn : (0 : Int) ≤ c.b0 * c.b0 := mul_self_nonneg _
   have hcast : (((c.b0 * c.b0).toNat : ℕ) : ℚ) = (c.b0 : ℚ) * c.b0 := by
@@ -380,11 +380,11 @@ theorem b0sqOk_sound (c : ICert) (h : c.b0sqOk = true) :
     push_cast at h2
     exact h2
   obtain ⟨⟨_, h1⟩, h2⟩ := h
-  rw [show b0sqLo = 87496354673 from rfl] at h1
-  rw [show b0sqHi = 87496355774 from rfl] at h2
-  have q1 : (87496354673 : ℚ) * 2 ^ (2 * (c.ef + c.ep)) ≤ (((c.b0 * c.b0).toNat : ℕ) : ℚ) * 2 ^ 40 := by
+  rw [show b0sqLo = 96203260011544519986650 from rfl] at h1
+  rw [show b0sqHi = 96203260011544712392863 from rfl] at h2
+  have q1 : (96203260011544519986650 : ℚ) * 2 ^ (2 * (c.ef + c.ep)) ≤ (((c.b0 * c.b0).toNat : ℕ) : ℚ) * 2 ^ 80 := by
     exact_mod_cast h1
-  have q2 : (((c.b0 * c.b0).toNat : ℕ) : ℚ) * 2 ^ 40 ≤ (87496355774 : ℚ) * 2 ^ (2 * (c.ef + c.ep)) := by
+  have q2 : (((c.b0 * c.b0).toNat : ℕ) : ℚ) * 2 ^ 80 ≤ (96203260011544712392863 : ℚ) * 2 ^ (2 * (c.ef + c.ep)) := by
     exact_mod_cast h2
   rw [hcast] at q1 q2
   have he : (0 : ℚ) < 2 ^ (c.ef + c.ep) := by positivity
